@@ -7,7 +7,7 @@ SPEC = {
                  'per-path unsat of order preservation, do/undo identity, range, continuity, NaN transparency',
     'bounds': {'quick': 'arrays of length <= 3 with every NaN pattern, any real values; scale > 0, any shift; '
                         'min_range >= 0 with resulting range > 0; 0..2 sorted steps with positive scales',
-               'thorough': 'arrays of length <= 4, 0..4 steps'},
+               'thorough': 'arrays of length <= 4 (step scaling: <= 3), 0..3 steps (at 4 symbolic steps z3 answers unknown on the nonlinear continuity clause)'},
     'outside': 'binary64 rounding of the do/undo round trip (the inverse property is exact only over the reals); '
                'arrays longer than the bound',
     'no_validation': False,
@@ -223,7 +223,7 @@ HARNESSES = [
       cover=['all NaN passthrough', 'span below min_range', 'span above min_range', 'constant data'],
       doc='minmax-scale with min_range: order, NaN, [0,1], minimum range honoured and centred, do/undo'),
     H('K-scale-step', k_step, quick=[(L, nm, K) for (L, nm) in _sizes(2) for K in (0, 1, 2)] + [(3, 2, 1), (3, 0, 2)],
-      thorough=[(L, nm, K) for (L, nm) in _sizes(3) for K in (0, 1, 2, 3, 4)], float_model='R',
+      thorough=[(L, nm, K) for (L, nm) in _sizes(3) for K in (0, 1, 2, 3)], float_model='R',
       cover=['scaled', 'value exactly on a step'],
       doc='step-scale with K symbolic sorted steps and K+1 positive scales: order, NaN, do/undo, continuity at every step'),
     H('K-scale-misc', k_misc, quick=[()], thorough=[()], cover=['ran'], float_model='R',
